@@ -12,12 +12,32 @@ def scenarios(seed, tier, failed):
         yield {'kind': 'chart', 'parent': [-1, 0, 1], 'init': [None, None, None], 'react': {'0': {}, '1': {}, '2': {}},
                'start': 2, 'events': [], 'host': 'HsmEventProcessor', 'spy': False, 'exit_handled': [True] * 3,
                'entry_handled': [True] * 3, 'none_super': ns, 'malformed': ['none-super', ns], 'timeout': 5}
+    # a later event leads into a state that answers the parent probe with None: the target itself, its parent, or a
+    # state further out (st0 > st1 > st2 > st3, the source st4 sits beside st0)
+    for f in (3, 2, 1, 0):
+        for tgt in (3, 2, 1):
+            if f > tgt:
+                continue
+            yield {'kind': 'chart', 'parent': [-1, 0, 1, 2, -1], 'init': [None] * 5,
+                   'react': {'0': {}, '1': {}, '2': {}, '3': {}, '4': {'S0': ['tran', tgt]}},
+                   'start': 4, 'events': ['S0'], 'host': 'HsmEventProcessor', 'spy': False, 'exit_handled': [True] * 5,
+                   'entry_handled': [True] * 5, 'none_super': f, 'malformed': ['none-super-later', f], 'timeout': 5}
     rnd = random.Random(seed + 24)
     for k in range(300 if tier == 'quick' else 10000):
         sc = charts.gen_scenario(rnd, n=rnd.randint(2, 7), nevents=rnd.randint(2, 6))
         n = len(sc['parent'])
         s = rnd.randrange(n)
-        kind = ['outside', 'self', 'none', 'none-super'][k % 4]
+        kind = ['outside', 'self', 'none', 'none-super', 'none-super-later'][k % 5]
+        if kind == 'none-super-later':
+            cur, log = charts.expected_start(sc)
+            later = [x for x in range(n) if ['EN', x] not in log]
+            if not later:
+                continue
+            sc['none_super'] = rnd.choice(later)
+            sc['malformed'] = [kind, sc['none_super']]
+            sc['timeout'] = 5
+            yield sc
+            continue
         if kind == 'none-super':
             # a handler on the start path that answers the parent probe with None
             sc['none_super'] = rnd.choice([x for x in charts.ancestors(sc['parent'], sc['start']) if x != -1])
@@ -69,6 +89,23 @@ def run(sc):
     if kind == 'none-super':
         if r != 'topology':
             return False, 'start_at through st%d, which answers the parent probe with None, ended with %r' % (s, r), key
+        return True, ''
+    if kind == 'none-super-later':
+        if r is not None:
+            return False, 'start_at which does not enter the faulty state st%d ended with %r' % (s, r), key
+        cur, _ = charts.expected_start(sc)
+        for k, sg in enumerate(sc['events']):
+            new, log, offers, outcome = charts.expected_step(sc, cur, sg)
+            r = step(lambda: chart.dispatch(Event(signal=sg)))
+            if ['EN', s] in log:
+                if r != 'topology':
+                    return False, 'event #%d %s leads into st%d, which answers the parent probe with None, and ended ' \
+                                  'with %r' % (k, sg, s, r), 'dispatch-into-faulty'
+                return True, ''
+            if r is not None:
+                return False, 'event #%d %s does not lead into the faulty state st%d but ended with %r' % (k, sg, s, r), \
+                    'dispatch'
+            cur = new
         return True, ''
     if kind in ('outside', 'self') and entered_bad_state():
         if r != 'topology':
